@@ -310,6 +310,24 @@ func genTmplText(c *caseWriter, quick bool) {
 			emit(c, "escape_text", k, s+`<a onclick="javascript:x">`, "1")
 		}
 	}
+	// join of contexts that differ in exactly one field (both orders)
+	for idx, a := range ctxs {
+		if idx >= 90 && quick {
+			break
+		}
+		variants := []vctx{a, a, a, a, a, a, a}
+		variants[0].LinkRel = a.LinkRel + "x "
+		variants[1].ScriptType = a.ScriptType + "x"
+		variants[2].Delim = (a.Delim + 1) % 4
+		variants[3].AttrName = a.AttrName + "x"
+		variants[4].ElemName = a.ElemName + "x"
+		variants[5].AttrValue = a.AttrValue + "x"
+		variants[6].State = (a.State + 1) % 8
+		for _, b := range variants {
+			emit(c, "join", ctxIn(a), ctxIn(b))
+			emit(c, "join", ctxIn(b), ctxIn(a))
+		}
+	}
 	for i, a := range ctxs {
 		for j, b := range ctxs {
 			if (i+j)%7 == 0 || i < 12 && j < 12 {
